@@ -138,6 +138,23 @@ class Farm:
         json.dump(res, open(st, "w"))
         return res
 
+    def tool(self, name):
+        """Builds harness/<name> (a main package that imports the library) inside the farm module."""
+        d = os.path.join(self.root, "_" + name)
+        exe = os.path.join(d, name)
+        if os.path.exists(exe):
+            return exe
+        os.makedirs(d, exist_ok=True)
+        for fn in os.listdir(os.path.join(HARNESS, name)):
+            if fn.endswith(".go"):
+                shutil.copy(os.path.join(HARNESS, name, fn), os.path.join(d, fn))
+        env = goenv()
+        env["GOFLAGS"] = "-mod=readonly"
+        r = subprocess.run(["go", "build", "-o", exe, "."], cwd=d, env=env, capture_output=True, text=True)
+        if r.returncode != 0:
+            raise HarnessError("harness tool %s does not build against the working tree:\n%s" % (name, r.stderr[-2500:]))
+        return exe
+
     def build_many(self, items, race=False):
         """items: list of (key, src).  Parallel."""
         with cf.ThreadPoolExecutor(max_workers=NCPU) as ex:
